@@ -117,6 +117,9 @@ def gen_history(rngs, n_ops, fault_rate=0.3, fault_classes=None, io_ops=True, si
         elif c < 0.62:
             fn = r.choice(sorted(LIB_FUNCS))
             op = {'op': 'call', 'fn': fn, 'args_src': [gen_arg(r, k, exotic_args) for k in LIB_FUNCS[fn]]}
+            if fn in ('echo', 'ident', 'size') and r.random() < 0.2:
+                # pass one of the student's own variables by name instead of a value
+                op['args_locals'] = [r.choice(['counter', 'sys.argv[:0]', 'str(counter)', '[counter, counter]'])]
             if fn == 'kw' and r.random() < 0.6:
                 op['kwargs'] = r.choice([{'b': 5}, {'c': 7}, {'b': 1, 'c': 1}])
             if r.random() < 0.15:
